@@ -59,14 +59,14 @@ def decFlags (s : String) : Option (Frames.Variant × Wrap.WVariant × Flags) :=
     let v : Frames.Variant := { zeroWidthChild := n % 2 == 1, ruleRightRepeat := n / 2 % 2 == 1,
                                 rstripCountsChars := n / 4 % 2 == 1, columnsZeroCount := n / 8 % 2 == 1 }
     let wv ← C02.decWVariant? b
-    -- table flags by position (leadingRepeat, minWidthCapsExpand, fixedRawMaximum, noColumnsAsserts, flexNegative);
+    -- table flags by position (leadingRepeat, minWidthCapsExpand, fixedRawMaximum, noColumnsAsserts, flexNegative, staleTableWidth);
     -- a flag the request does not mention keeps the model's default (= today's code)
     let bit (i : Nat) (dflt : Bool) : Bool := match c.toList[i]? with | some ch => ch == '1' | none => dflt
     let d : Flags := {}
     if c.toList.length < 3 then none else
     pure (v, wv, { leadingRepeat := bit 0 d.leadingRepeat, minWidthCapsExpand := bit 1 d.minWidthCapsExpand,
                    fixedRawMaximum := bit 2 d.fixedRawMaximum, noColumnsAsserts := bit 3 d.noColumnsAsserts,
-                   flexNegative := bit 4 d.flexNegative })
+                   flexNegative := bit 4 d.flexNegative, staleTableWidth := bit 5 d.staleTableWidth })
   | _ => none
 
 def takeNats : Nat → List String → Option (List Nat × List String)
